@@ -45,7 +45,10 @@
 //              what all other calls use so that stepper applications can be counted
 //   rzmap      RZMapField::operator() at geometry points, their mirror images, the axis, a lattice
 //              over and beyond each map, map edges and grid lines +-1 ulp vs a long-double
-//              re-interpolation of the input tables (case ids rzmap=rzu|rzs|rzi)
+//              re-interpolation of the input tables (case ids rzmap=rzu|rzs|rzi|rzh).  rzh is a
+//              HOLLOW map (2.5 <= r <= 10, 3 <= z <= 17) that is only value-checked: inner edge
+//              +-1 ulp, the hole, z < min_z > 0.  params.host_ref().options must equal
+//              RZMapFieldInput::driver_options (non-default for rzi = tight and for rzh)
 //   nolimit    FieldPropagator::operator()() from interior starts (case ids nolimit:...)
 //   zhx        ZHelixStepper single steps inside / outside the configuration of its unit test
 //
@@ -1063,7 +1066,9 @@ static Propagation propagate_once(SF const& sf,
 
 // kind 0: uniform content, map contains the world | 1: smooth non-uniform content, contains the
 // world | 2: uniform content on a map that lies INSIDE the world (r <= 10, -12 <= z <= 14;
-// asymmetric and max_r != max_z on purpose)
+// asymmetric and max_r != max_z on purpose; carries non-default driver_options = the `tight` set)
+// | 3: HOLLOW map, value oracle only (never propagated through): 2.5 <= r <= 10, 3 <= z <= 17 (z
+// range does not straddle 0), 7 x 5 knots, smooth content, its own driver_options
 static RZMapFieldInput make_rz_input(double bz, int kind)
 {
     RZMapFieldInput inp;
@@ -1080,14 +1085,31 @@ static RZMapFieldInput make_rz_input(double bz, int kind)
         inp.min_z = -12;
         inp.max_z = 14;
         inp.max_r = 10;
+        inp.driver_options.minimum_step = 1e-7;
+        inp.driver_options.delta_chord = 1e-3;
+        inp.driver_options.delta_intersection = 1e-6;
+        inp.driver_options.epsilon_rel_max = 1e-5;
+        inp.driver_options.epsilon_step = 1e-6;
+    }
+    if (kind == 3)
+    {
+        inp.num_grid_z = 7;
+        inp.num_grid_r = 5;
+        inp.min_z = 3;
+        inp.max_z = 17;
+        inp.min_r = 2.5;
+        inp.max_r = 10;
+        inp.driver_options.delta_chord = 0.02;
+        inp.driver_options.max_nsteps = 7;
+        inp.driver_options.max_substeps = 3;
     }
     for (unsigned iz = 0; iz < inp.num_grid_z; ++iz)
         for (unsigned ir = 0; ir < inp.num_grid_r; ++ir)
         {
             double z = inp.min_z + (inp.max_z - inp.min_z) * iz / (inp.num_grid_z - 1);
-            double r = inp.max_r * ir / (inp.num_grid_r - 1);
+            double r = inp.min_r + (inp.max_r - inp.min_r) * ir / (inp.num_grid_r - 1);
             double fz = bz, fr = 0;
-            if (kind == 1)
+            if (kind == 1 || kind == 3)
             {
                 fz = bz * (1 + 0.3 * std::cos(z / 25) - 0.2 * (r / 60) * (r / 60));
                 fr = bz * 0.25 * (r / 60) * std::sin(z / 25);
@@ -1150,7 +1172,8 @@ struct RzOracle
         bool const in_z = x[2] >= in.min_z && x[2] <= in.max_z;
         // r is compared after rounding: one ulp either side of max_r both answers are admissible
         bool const in_r = rd >= in.min_r && rd <= in.max_r;
-        bool const r_edge = fabsl(r - in.max_r) <= 4 * 2.3e-16L * in.max_r;
+        bool const r_edge = fabsl(r - in.max_r) <= 4 * 2.3e-16L * in.max_r
+                            || (in.min_r > 0 && fabsl(r - in.min_r) <= 4 * 2.3e-16L * in.min_r);
         auto is_zero = [&] { return got[0] == 0 && got[1] == 0 && got[2] == 0; };
         if (!in_z || (!in_r && !r_edge))
             return is_zero();
@@ -1198,6 +1221,19 @@ static void rzmap_value_cases(vf::Run& R, char const* name, RZMapFieldInput cons
     R.begin_case(cid, 30);
     RzOracle O{inp};
     RZMapField field(params.host_ref());
+    // the driver options of an RZ-map run are taken from the params in production
+    // (RZMapFieldPropagatorFactory): they must be the ones of the input (library's operator==)
+    R.count("evaluations");
+    if (!(params.host_ref().options == inp.driver_options)
+        || params.host_ref().options.delta_chord != inp.driver_options.delta_chord
+        || params.host_ref().options.max_nsteps != inp.driver_options.max_nsteps)
+        R.violation("rzmap:driver-options-not-stored", cid,
+                    fmt("params options delta_chord=%g max_nsteps=%d, input delta_chord=%g max_nsteps=%d",
+                        double(params.host_ref().options.delta_chord),
+                        int(params.host_ref().options.max_nsteps),
+                        double(inp.driver_options.delta_chord), int(inp.driver_options.max_nsteps)));
+    R.tag(inp.driver_options == FieldDriverOptions{} ? "rzmap:driver-options-default"
+                                                     : "rzmap:driver-options-non-default");
     std::vector<Real3> pts;
     auto add_sym = [&](Real3 p) {
         // the point and its mirror images: the map depends on (|r|, z) only, the vector follows x, y
@@ -1245,6 +1281,24 @@ static void rzmap_value_cases(vf::Run& R, char const* name, RZMapFieldInput cons
             pts.push_back({0, -re, 0.11 * inp.min_z});
             pts.push_back({0.6 * re, 0.8 * re, 0.5});
         }
+    if (inp.min_r > 0)
+    {
+        // hollow map: the inner edge exactly and one ulp either side, the first inner grid line,
+        // a point deep in the hole; at a z inside the map and at z outside it
+        double const dr = (inp.max_r - inp.min_r) / (inp.num_grid_r - 1);
+        for (double rr : {inp.min_r, inp.min_r + dr, 0.4 * inp.min_r})
+            for (int d = -1; d <= 1; ++d)
+            {
+                double re = d == 0 ? rr : std::nextafter(rr, d < 0 ? 0 : 1e300);
+                for (double zz : {0.5 * (inp.min_z + inp.max_z), inp.min_z, inp.max_z,
+                                  -0.5 * (inp.min_z + inp.max_z), 0.0})
+                {
+                    pts.push_back({re, 0, zz});
+                    pts.push_back({0, -re, zz});
+                    pts.push_back({-0.6 * re, 0.8 * re, zz});
+                }
+            }
+    }
     for (Real3 const& x : pts)
     {
         Real3 got = field(x);
@@ -1254,6 +1308,7 @@ static void rzmap_value_cases(vf::Run& R, char const* name, RZMapFieldInput cons
         bool ok = O.check(x, got, want, &tol);
         LD r = sqrtl((LD)x[0] * x[0] + (LD)x[1] * x[1]);
         R.tag(r == 0                                              ? "rzmap:on-axis"
+              : (r < inp.min_r && x[2] >= inp.min_z && x[2] <= inp.max_z) ? "rzmap:in-hole"
               : (r > inp.max_r || x[2] < inp.min_z || x[2] > inp.max_z) ? "rzmap:outside-map"
                                                                         : "rzmap:inside-map");
         if (!ok)
@@ -1518,7 +1573,11 @@ int main(int argc, char** argv)
     if (R.mine(nblocks + 6))
         rzmap_value_cases(R, "rzs", make_rz_input(1e4, 1), *fs.rz_smooth, geos);
     if (R.mine(nblocks + 7))
+    {
         rzmap_value_cases(R, "rzi", make_rz_input(1e4, 2), *fs.rz_inner, geos);
+        // hollow map (min_r > 0, z range entirely positive): value oracle only
+        rzmap_value_cases(R, "rzh", make_rz_input(1e4, 3), *make_rz(1e4, 3), geos);
+    }
     // FieldPropagator::operator()() (no step limit)
     for (size_t g = 0; g < geos.size(); ++g)
         if (R.mine(nblocks + 8 + g))
